@@ -29,6 +29,9 @@ type c02expect struct {
 	path   string
 	follow bool
 	what   string
+	// the flag word cannot be known to anybody (unreadable open_how: the kernel itself refuses the call
+	// with EFAULT): whether a final link would be followed is undefined, only the access class is judged
+	followUnknown bool
 }
 
 type c02forest struct {
@@ -344,11 +347,13 @@ func c02Run(c *vcore.Ctx) *vcore.Violation {
 			fl := flagWords[src.Int(len(flagWords), "flags")]
 			how := "h:" + fmt.Sprint(fl)
 			cl, strict := openClass(fl)
-			if src.Bool(1, 6, "badhow") {
+			badhow := src.Bool(1, 6, "badhow")
+			if badhow {
 				how, cl, strict = "k", "write", true // open_how cannot be read: classified as a write
 			}
 			s.nr, s.args[0], s.args[1], s.args[2], s.args[3] = 437, enc, P, how, "24"
 			one(cl, strict, true, v, openFollow(fl))
+			s.expect[len(s.expect)-1].followUnknown = badhow
 		case "stat":
 			s.nr, s.args[0], s.args[1] = 4, P, "buf"
 			one("stat", true, false, 0, true)
@@ -361,7 +366,9 @@ func c02Run(c *vcore.Ctx) *vcore.Violation {
 			one("stat", true, true, v, follow)
 		case "statx":
 			fl, follow := atFlag(0x100)
-			s.nr, s.args[0], s.args[1], s.args[2], s.args[3], s.args[4] = 332, enc, P, fl, "0x7ff", "buf"
+			// the field mask is another register: STATX_INO (0x100) has the value of AT_SYMLINK_NOFOLLOW
+			mask := src.Pick("statx_mask", "0x7ff", "0x6ff", "0", "0xfff", "0x100")
+			s.nr, s.args[0], s.args[1], s.args[2], s.args[3], s.args[4] = 332, enc, P, fl, mask, "buf"
 			one("stat", true, true, v, follow)
 		case "access":
 			s.nr, s.args[0], s.args[1] = 21, P, "4"
@@ -483,6 +490,15 @@ func c02Run(c *vcore.Ctx) *vcore.Violation {
 			e.dfd = 0xffffffffffffff9c
 		}
 		want, ok := kernelResolve(tpid, e.dfd, e.path, e.follow)
+		if e.followUnknown {
+			// either reading of the final link is acceptable; if one of them does not resolve, nothing is decided
+			w2, ok2 := kernelResolve(tpid, e.dfd, e.path, !e.follow)
+			if !ok || !ok2 {
+				ok = false
+			} else if arg == w2 {
+				want = w2
+			}
+		}
 		shown := strings.ReplaceAll(e.path, root, "$R")
 		if !ok {
 			c.Probe("kernel_resolution_failed")
